@@ -564,3 +564,23 @@ def rule_dyn_calls(text, table):
                 return (c.pos(rs), c.end(cl), "%s(%s%s%s)" % (table[c.t(k + 1)], recv, sep, args))
         return None
     return rewrite(text, finder)
+
+
+def rule_dyn_cast(text):
+    """`E as Box<dyn Tr>`  ->  `{ let __c: Box<dyn Tr> = E; __c }`   (Verus takes the implicit unsizing coercion only)"""
+    def finder(c):
+        for k in range(len(c)):
+            if c.t(k) == "as" and c.kind(k) == "id" and c.seq(k + 1, "Box", "<", "dyn"):
+                depth, j = 0, k + 2
+                while True:
+                    if c.t(j) == "<": depth += 1
+                    elif c.t(j) == ">":
+                        depth -= 1
+                        if depth == 0: break
+                    j += 1
+                ty = c.slice(k + 1, j + 1).strip()
+                rs = _method_call_receiver_start(c, k)
+                ex = c.text[c.pos(rs):c.pos(k)].strip()
+                return (c.pos(rs), c.end(j), "{ let __c: %s = %s; __c }" % (ty, ex))
+        return None
+    return rewrite(text, finder)
